@@ -376,14 +376,42 @@ impl TestFunction {
             }
         }
 
+        // the declared types of the parameters, RFC 9535 2.4.3
+        fn value_type<'a>(a: &'a FnArg, name: &str) -> Result<&'a FnArg, JsonPathError> {
+            if a.is_value_type() {
+                Ok(a)
+            } else {
+                Err(JsonPathError::InvalidJsonPath(format!(
+                    "Invalid argument for the function `{}`: expected a value (a literal, a singular query or a function returning a value)",
+                    name
+                )))
+            }
+        }
+        fn nodes_type<'a>(a: &'a FnArg, name: &str) -> Result<&'a FnArg, JsonPathError> {
+            if with_node_type_validation(a, name)?.is_query() {
+                Ok(a)
+            } else {
+                Err(JsonPathError::InvalidJsonPath(format!(
+                    "Invalid argument for the function `{}`: expected a query",
+                    name
+                )))
+            }
+        }
+
         match (name, args.as_slice()) {
-            ("length", [a]) => Ok(TestFunction::Length(Box::new(a.clone()))),
-            ("value", [a]) => Ok(TestFunction::Value(a.clone())),
-            ("count", [a]) => Ok(TestFunction::Count(
-                with_node_type_validation(a, name)?.clone(),
+            ("length", [a]) => Ok(TestFunction::Length(Box::new(
+                value_type(a, name)?.clone(),
+            ))),
+            ("value", [a]) => Ok(TestFunction::Value(nodes_type(a, name)?.clone())),
+            ("count", [a]) => Ok(TestFunction::Count(nodes_type(a, name)?.clone())),
+            ("search", [a, b]) => Ok(TestFunction::Search(
+                value_type(a, name)?.clone(),
+                value_type(b, name)?.clone(),
             )),
-            ("search", [a, b]) => Ok(TestFunction::Search(a.clone(), b.clone())),
-            ("match", [a, b]) => Ok(TestFunction::Match(a.clone(), b.clone())),
+            ("match", [a, b]) => Ok(TestFunction::Match(
+                value_type(a, name)?.clone(),
+                value_type(b, name)?.clone(),
+            )),
             ("length" | "value" | "count" | "match" | "search", args) => {
                 Err(JsonPathError::InvalidJsonPath(format!(
                     "Invalid number of arguments for the function `{}`: got {}",
@@ -442,6 +470,33 @@ impl FnArg {
     }
     pub fn is_filter(&self) -> bool {
         matches!(self, FnArg::Filter(_))
+    }
+    /// a query (NodesType)
+    pub fn is_query(&self) -> bool {
+        match self {
+            FnArg::Test(t) => matches!(t.as_ref(), Test::RelQuery(_) | Test::AbsQuery(_)),
+            _ => false,
+        }
+    }
+    /// a literal, a singular query or a function returning a value (ValueType)
+    pub fn is_value_type(&self) -> bool {
+        fn singular(segments: &[Segment]) -> bool {
+            segments.iter().all(|s| {
+                matches!(
+                    s,
+                    Segment::Selector(Selector::Name(_)) | Segment::Selector(Selector::Index(_))
+                )
+            })
+        }
+        match self {
+            FnArg::Literal(_) => true,
+            FnArg::Filter(_) => false,
+            FnArg::Test(t) => match t.as_ref() {
+                Test::RelQuery(segments) => singular(segments),
+                Test::AbsQuery(q) => singular(&q.segments),
+                Test::Function(f) => f.is_comparable(),
+            },
+        }
     }
 }
 
